@@ -50,7 +50,7 @@ func init() {
 					}
 				}
 			}
-			for _, c := range []string{"car/bitflip-payload-stale-cid", "car/bitflip-payload-recomputed-cid", "car/bitflip-signature-recomputed-cid", "car/tag-changed-recomputed-cid", "cbor/tag-changed", "car/non-token", "car/truncated-entry", "car/wrong-cid", "car/length-off-by-one", "car/cut-after-length-prefix", "car/cut-inside-cid", "car/cut-inside-data", "car/cut-inside-header", "cbor/cut", "cbor/bitflip-payload", "cbor/bitflip-signature", "cbor/non-token", "cbor/truncated-entry", "cbor/wrong-version", "cbor/extra-key", "cbor/non-bytes-entry", "cbor/non-map-root"} {
+			for _, c := range []string{"car/bitflip-payload-stale-cid", "car/bitflip-payload-recomputed-cid", "car/bitflip-signature-recomputed-cid", "car/tag-changed-recomputed-cid", "cbor/tag-changed", "car/stub-section", "car/non-token", "car/truncated-entry", "car/wrong-cid", "car/length-off-by-one", "car/cut-after-length-prefix", "car/cut-inside-cid", "car/cut-inside-data", "car/cut-inside-header", "cbor/cut", "cbor/bitflip-payload", "cbor/bitflip-signature", "cbor/non-token", "cbor/truncated-entry", "cbor/wrong-version", "cbor/extra-key", "cbor/non-bytes-entry", "cbor/non-map-root"} {
 				cells = append(cells, "corrupt/"+c)
 			}
 			return cells
@@ -405,6 +405,12 @@ func runC17(w *mon.W) {
 			return ref.CID(nd), nd
 		}), -1, 0), 1)
 		expectFail("cbor/tag-changed", buildCborContainer("ctn-v1", entries(func() ref.V { return ref.Bytes(corrupt("tag-changed")) }), false), 0)
+		// a correctly framed section that holds only the beginning of a CID, a bare CID, or a CID and
+		// one byte (valid sections may follow it)
+		for _, stub := range [][]byte{{0x01}, {0x01, 0x71}, {0x01, 0x71, 0x12}, {0x01, 0x71, 0x12, 0x20}, {0x12}, {0x12, 0x20}, v.cid.Bytes()[:20], v.cid.Bytes(), append(append([]byte{}, v.cid.Bytes()...), v.sealed[0])} {
+			stub := stub
+			expectFail("car/stub-section", buildCAR(carBlocks(func(i int, c cid.Cid, d []byte) (cid.Cid, []byte) { return cid.Undef, stub }), -1, 0), 1)
+		}
 		expectFail("car/non-token", buildCAR(carBlocks(func(i int, c cid.Cid, d []byte) (cid.Cid, []byte) {
 			nd := corrupt("non-token")
 			return ref.CID(nd), nd
